@@ -274,6 +274,25 @@ def reproducible(ctx):
                 d = _diff(ctx.post, snapshot.snap(seq, True))
                 out.append((f"C09:calls-on-copy-changed-original:{how}:{d}", f"after calls on the {how} copy the original differs in {d}"))
                 full0 = full1
+        # the caller goes on editing the list objects it passed as arguments: nothing of the sequence may follow
+        if ctx.world.passed:
+            for lst in ctx.world.passed:
+                if lst:
+                    lst[0] = ctx.world.qids[-1] if lst[0] != ctx.world.qids[-1] else ctx.world.qids[0]
+                lst.reverse()
+            ctx.act["caller_lists_edited"] += 1
+            full2 = snapshot.snap(seq, True).key(with_calls=True)
+            if full2 != full0:
+                out.append((f"C09:editing-a-passed-list-changed-the-sequence:{_diff(ctx.post, snapshot.snap(seq, True))}",
+                            "after the caller edited list objects it had passed as arguments (targets / SLM qubits) the sequence's "
+                            "record of calls differs"))
+            else:
+                try:
+                    other = seq.switch_register(ctx.world.register)
+                    if snapshot.snap(other).key() != ref:
+                        out.append(("C09:editing-a-passed-list-changed-the-replay", "switch_register copy differs after the caller edited its lists"))
+                except Exception as e:
+                    out.append((f"C09:copy-raises-after-list-edit:{type(e).__name__}", repr(e)[:200]))
     return out
 
 
